@@ -13,7 +13,7 @@ ID = "C04"
 LEVEL = "exploration"
 BUDGET = {"quick": 55, "thorough": 900}
 QUICK_CASES = 3000  # generator items in the quick tier (fixed amount of work; BUDGET is then only a safety cap)
-FLOOR = {"quick": 1000, "thorough": 2000}
+FLOOR = {"quick": 1000, "thorough": 1000}  # conclusive cases below which a run is inconclusive (the thorough tier is time-budgeted: same floor)
 TIMEOUT = 60
 BATCH = 1
 REQUIRED_OBS = ["runs_observed", "events_emitted", "events_qualifying", "events_not_qualifying"]
